@@ -173,7 +173,8 @@ func (p *Packet) decodeIPv4Header() error {
 		TOS:      int(p.data[1]),
 		TotalLen: int(p.data[2])<<8 | int(p.data[3]),
 		ID:       int(p.data[4])<<8 | int(p.data[5]),
-		Flags:    int(p.data[6] & 0x07),
+		Flags:    int(p.data[6] >> 5),
+		FragOff:  int(p.data[6]&0x1f)<<8 | int(p.data[7]),
 		TTL:      int(p.data[8]),
 		Protocol: int(p.data[9]),
 		Checksum: int(p.data[10])<<8 | int(p.data[11]),
